@@ -265,3 +265,30 @@ macro_rules! shell_harness_len {
 }
 shell_harness_len!(c18_shell_len0, 0);
 shell_harness_len!(c18_shell_len2, 2);
+
+/// The program is a path, not text: a program name made of arbitrary non-NUL bytes (0x01..=0xff, so every
+/// sequence that is not valid UTF-8 is included) reaches the process layer byte for byte; one ASCII argument.
+/// (Added after seed r4-lossy-program-path, which converts the program through `Path::display`.)
+#[kani::proof]
+#[kani::unwind(5)]
+pub fn c18_exec_nonutf8_program() {
+    let pb: [u8; 2] = kani::any();
+    kani::assume(pb[0] >= 1 && pb[1] >= 1);
+    let ab = sym2();
+    let mut pv = Vec::with_capacity(2);
+    pv.push(pb[0]);
+    pv.push(pb[1]);
+    let mut args = Vec::with_capacity(1);
+    args.push(mk(&ab, 2));
+    let options = any_options();
+    let cmd = Command { program: Program::Exec { prog: PathBuf::from(OsString::from_vec(pv)), args }, options };
+    let sp = cmd.to_spawnable();
+    let c = sp.command();
+    kani::cover!(pb[0] == b'p' && pb[1] == 0xff, "program name that is not valid UTF-8");
+    assert!(is(&c.verif_program, &pb, 2), "C18: program altered");
+    assert!(c.verif_args.len() == 1, "C18: argument count changed (split or dropped)");
+    assert!(is(&c.verif_args[0], &ab, 2), "C18: argument bytes altered");
+    check_wrappers(&sp, options);
+    std::mem::forget(sp);
+    std::mem::forget(cmd);
+}
